@@ -367,3 +367,44 @@ pub fn metric_sum(text: &str, name: &str) -> u64 {
     text.lines().filter(|l| !l.starts_with('#') && l.contains(name))
         .filter_map(|l| l.rsplit(' ').next().and_then(|v| v.trim().parse::<f64>().ok())).map(|v| v as u64).sum()
 }
+
+/// A long session that keeps violating the lifecycle and sending damaged payloads inside intact
+/// frames: 12..64 messages for random peers in random order (Route Monitoring / Peer Down for peers
+/// that are not up, repeated Peer Up and Initiation), a third of them with a damaged payload, type or
+/// flag byte. Whatever the receiver keeps per session (counters, bounded buffers of recent errors,
+/// per-peer tables) is driven well past any small capacity. No Termination before the end, so the
+/// session is as long as the script on every variant.
+pub fn long_stream(g: &mut crate::rng::Rng) -> Vec<Vec<u8>> {
+    let mut v = vec![];
+    if g.chance(9, 10) { v.push(initiation()); }
+    let n = g.range(12, 64);
+    for k in 0..n {
+        let mut m = match g.below(8) {
+            0 => initiation(),
+            1 => peer_up(g.below(3) as usize),
+            2 | 3 => peer_down(g.below(3) as usize),
+            4 => statistics(g.below(3) as usize),
+            _ => route_monitoring(g.below(3) as usize, k as usize),
+        };
+        if g.chance(1, 3) && m.len() > 50 {
+            match g.below(3) {
+                0 => { m[7] = g.below(256) as u8; }
+                1 => { let i = g.range(48, m.len() as u64 - 1) as usize; m[i] = m[i].wrapping_add(g.range(1, 255) as u8); }
+                _ => { for _ in 0..g.range(1, 4) { let i = g.range(6, m.len() as u64 - 1) as usize; m[i] = g.below(256) as u8; } }
+            }
+        }
+        v.push(m);
+    }
+    if g.chance(1, 3) { v.push(termination()); }
+   
+    v
+}
+
+
+/// An Initiation message whose sysDescr makes the whole message `total` bytes long (any size up to
+/// 64 KiB + header: one information TLV): a well-formed message far beyond one BGP PDU.
+pub fn big_initiation(total: usize) -> Vec<u8> {
+    let base = encode::mk_initiation_msg("verif-sys", "").len();
+    let descr: String = std::iter::repeat('d').take(total.saturating_sub(base)).collect();
+    encode::mk_initiation_msg("verif-sys", &descr).to_vec()
+}
